@@ -205,6 +205,13 @@ func find(r leveldb.Reader, readOpts *opt.ReadOptions, start, end string) sorted
 	// A nil Range.Limit is treated as a key after all keys in the DB.
 	if end != "" {
 		endB = []byte(end)
+		if start > end {
+			// An inverted range contains no keys. goleveldb panics on
+			// one (slice bounds out of range in tFiles.newIndexIterator)
+			// as soon as the database has sorted table files, so give it
+			// the equally empty range [end, end) instead.
+			startB = endB
+		}
 	}
 	it := &iter{
 		it: r.NewIterator(
